@@ -431,6 +431,12 @@ pub fn run(tier: Tier, seed: u64) -> i32 {
                     s.replace('.', ""),
                     s.replace('0', ""),
                     s.to_ascii_uppercase(),
+                    // padding and line endings a constructor might strip "to be helpful"
+                    format!("{s}\0"),
+                    format!("\0{s}"),
+                    format!("{s}\n"),
+                    format!("{s}\r\n"),
+                    format!("{s}\t"),
                 ];
                 // one character replaced by the one that differs in the ASCII case bit (0x20) or in the lowest bit:
                 // upper-casing by bit tricks folds '{' onto '[', '~' onto '^', '`' onto '@', '1' onto a control character
@@ -475,9 +481,13 @@ pub fn run(tier: Tier, seed: u64) -> i32 {
                 if ntu.is_err() || ntp.is_err() {
                     // not a permitted credential at all: no constructor may turn it into one that logs in
                     use wow_srp::normalized_string::NormalizedString as NS;
+                    use std::convert::TryFrom;
                     let built: Vec<(NS, NS)> = [
                         (NS::new(tu.as_str()).ok(), NS::new(tp.as_str()).ok()),
                         (NS::from_string(tu.clone()).ok(), NS::from_string(tp.clone()).ok()),
+                        (NS::from_str(tu.as_str()).ok(), NS::from_str(tp.as_str()).ok()),
+                        (NS::try_from(tu.clone()).ok(), NS::try_from(tp.clone()).ok()),
+                        (NS::try_from(tu.as_str()).ok(), NS::try_from(tp.as_str()).ok()),
                     ]
                     .into_iter()
                     .filter_map(|(a, b)| Some((a?, b?)))
@@ -565,7 +575,14 @@ pub fn replay_confusable(r: &serde_json::Value) -> Option<Result<String, String>
     let (ntu, ntp) = (refmodel::misc::normalize(&tu), refmodel::misc::normalize(&tp));
     if ntu.is_err() || ntp.is_err() {
         use wow_srp::normalized_string::NormalizedString as NS;
-        for (a, b) in [(NS::new(tu.as_str()).ok(), NS::new(tp.as_str()).ok()), (NS::from_string(tu.clone()).ok(), NS::from_string(tp.clone()).ok())] {
+        use std::convert::TryFrom;
+        for (a, b) in [
+            (NS::new(tu.as_str()).ok(), NS::new(tp.as_str()).ok()),
+            (NS::from_string(tu.clone()).ok(), NS::from_string(tp.clone()).ok()),
+            (NS::from_str(tu.as_str()).ok(), NS::from_str(tp.as_str()).ok()),
+            (NS::try_from(tu.clone()).ok(), NS::try_from(tp.clone()).ok()),
+            (NS::try_from(tu.as_str()).ok(), NS::try_from(tp.as_str()).ok()),
+        ] {
             if let (Some(a), Some(b)) = (a, b) {
                 if a.as_ref().as_bytes() == &run_[..] && b.as_ref().as_bytes() == &rpn[..] {
                     return Some(Err(format!("the typed pair {tu:?} / {tp:?} is not a permitted credential, yet the library turns it into the registered pair {ru:?} / {rp:?}")));
